@@ -1,6 +1,7 @@
 import Aiorpcx.Common.Hex
 import Aiorpcx.Common.RatIO
 import Aiorpcx.C14.Model
+import Aiorpcx.C14.Session
 /-! Line-protocol driver for the C14 model.
     in : `<kind> bw soft hard decay sleep base threshold initial start | op op ...`
          kind `S` (server) / `C` (client: hard limit forced to 0); numbers `n` or `n/d`;
@@ -64,7 +65,54 @@ def go (c : Cfg) (s : St) : List DOp → List String
   | [] => []
   | op :: ops => let s' := dstep c s op; record c s op.op s' :: go c s' ops
 
+/-! Session mode (the C13 x C14 composition): `Q bw soft hard decay sleep base threshold initial start | sop ...`
+with sops `A<i>` (request i reaches the limiter), `F<i>` (its handler leaves), `D<i>` (a queued
+request is dropped) and the accounting ops of above → one record per op, joined by ` | `:
+`<limiter events>;closed=<0|1>;hooks=<n>;h=<holders>;w=<queued>;T=<limit>` -/
+def parseSOp (s : String) : Option SOp :=
+  match s.toList with
+  | 'A' :: r => (String.ofList r).toNat?.map SOp.arrive
+  | 'F' :: r => (String.ofList r).toNat?.map SOp.finish
+  | 'D' :: r => (String.ofList r).toNat?.map SOp.drop
+  | _ => (parseOp s).map SOp.acct
+
+def showLEv : C13.Ev → String
+  | .entered i => s!"E{i}"
+  | .refused i => s!"R{i}"
+  | .cancelled i => s!"C{i}"
+  | .bad => "B"
+
+def showNats (l : List Nat) : String :=
+  if l.isEmpty then "-" else String.intercalate "." (l.map toString)
+
+def sgo (c : Cfg) (s : Sess) : List SOp → List String
+  | [] => []
+  | op :: ops =>
+      let r := Sess.step c s op
+      let e := if r.2.isEmpty then "-" else String.intercalate "," (r.2.map showLEv)
+      let h := (r.1.lim.holders.toArray.qsort (· < ·)).toList
+      s!"{e};closed={if r.1.closed then 1 else 0};hooks={r.1.hooks};h={showNats h};w={showNats r.1.lim.waiters};T={r.1.lim.T}"
+        :: sgo c r.1 ops
+
+def handleQ (cfg ops : String) : String :=
+  match (cfg.splitOn " ").filter (· ≠ "") with
+  | [_q, bw, soft, hard, decay, sleep, base, thr, initial, start] =>
+    match parseRat bw, parseRat soft, parseRat hard, parseRat decay, parseRat sleep, parseRat base,
+          parseRat thr, initial.toInt?, parseRat start,
+          ((ops.splitOn " ").filter (· ≠ "")).mapM parseSOp with
+    | some bw, some soft, some hard, some decay, some sleep, some base, some thr, some ini,
+      some start, some ops =>
+        let c : Cfg := ⟨bw, soft, hard, decay, sleep, base, thr, ini⟩
+        if ops.isEmpty then "." else String.intercalate " | " (sgo c (Sess.init c start) ops)
+    | _, _, _, _, _, _, _, _, _, _ => "bad-op"
+  | _ => "bad-op"
+
 def handle (line : String) : String :=
+  if line.startsWith "Q " then
+    match line.splitOn "|" with
+    | [cfg, ops] => handleQ cfg ops
+    | _ => "bad-op"
+  else
   match line.splitOn "|" with
   | [cfg, ops] =>
     match (cfg.splitOn " ").filter (· ≠ "") with
